@@ -17,6 +17,9 @@ pub struct ReadCase {
     pub default_read: usize,
     pub write_plan: Vec<WAct>,
     pub verify_version: bool,
+    /// tokio only: 0 = plain transport; k >= 1 = buffering transport (bytes reach the wire on flush) whose flush is
+    /// Pending k-1 times before it completes
+    pub flush: usize,
     pub label: String,
 }
 
@@ -59,6 +62,12 @@ pub fn expected_results(stream: &[u8], compressed: bool) -> (Vec<ReadResult>, Ve
 pub fn run_read_case(which: Impl, case: &ReadCase) -> ReadOutcome {
     let h = Handle::new(case.stream.clone(), case.read_plan.clone(), case.write_plan.clone());
     h.with(|s| s.default_read = case.default_read);
+    if case.flush > 0 && which == Impl::Tokio {
+        h.with(|s| {
+            s.buffered = true;
+            s.flush_plan = (0..4096).map(|i| i % case.flush != case.flush - 1).collect();
+        });
+    }
     let mut conn = Conn::new(which, &h, case.compressed, case.verify_version);
     let (_, sizes) = expected_results(&case.stream, case.compressed);
     let transient_injected = case.read_plan.iter().filter(|a| matches!(a, RAct::Error(_))).count();
